@@ -158,10 +158,14 @@ func eval(e *rsx.Env, rq rsx.Req) (bool, bool, string, string) {
 	got := setOf(o.Allow)
 	w1 := strings.Join(wantAllow, ",")
 	okAllow := got == w1
-	if !okAllow && optionalOptions {
+	if optionalOptions && optionsIn405(e.Prof) {
+		// the statement does not say whether a 405 lists OPTIONS when OPTIONS is only answered automatically,
+		// but it does say that the answer depends only on the router options: a router with the same options and
+		// the single route GET /cal decides (calibration), and every other 405 must make the same choice
 		w2 := append(append([]string{}, wantAllow...), "OPTIONS")
 		sort.Strings(w2)
-		okAllow = got == strings.Join(w2, ",")
+		w1 = strings.Join(w2, ",")
+		okAllow = got == w1
 	}
 	if !okAllow {
 		return false, nontrivial, "wrong-allow", fmt.Sprintf("want Allow set {%s}: %s", w1, hdr())
@@ -171,6 +175,24 @@ func eval(e *rsx.Env, rq rsx.Req) (bool, bool, string, string) {
 		return false, nontrivial, "context-leak", fmt.Sprintf("the special handler's context must expose no route, pattern or parameters and scope %d: %s", wantScope, hdr())
 	}
 	return false, nontrivial, "", ""
+}
+
+var calibrated = map[rsx.Profile]bool{}
+
+// optionsIn405 reports whether a router with these options lists OPTIONS in the Allow header of a 405 although
+// no OPTIONS route exists (calibration router: the single route GET /cal, request POST /cal).
+func optionsIn405(prof rsx.Profile) bool {
+	if v, ok := calibrated[prof]; ok {
+		return v
+	}
+	v := false
+	if e, err := rsx.Build([]rsx.RouteSpec{{Method: "GET", Pattern: "/cal"}}, prof); err == nil {
+		var o rsx.Obs
+		e.Serve(rsx.Req{Method: "POST", Path: "/cal"}, &o)
+		v = contains(strings.Split(o.Allow, ", "), "OPTIONS")
+	}
+	calibrated[prof] = v
+	return v
 }
 
 func contains(l []string, s string) bool {
@@ -363,7 +385,7 @@ func init() {
 			"non-trivial = some method has a route serving the requested host and path (so 405/OPTIONS/Allow are in play)",
 		Assumptions: []string{
 			"serves(method) = reference direct match or reference trailing-slash match on a route that ignores trailing slashes (reference matcher as in C01/C08)",
-			"whether OPTIONS itself is listed in the 405 Allow header when auto-OPTIONS is on is not decided by the statement: accepted either way",
+			"whether OPTIONS itself is listed in the 405 Allow header when auto-OPTIONS is on is not decided by the statement; since the answer must depend only on the router options, a calibration router with the same options and the single route GET /cal decides, and every other 405 must make the same choice",
 			"requests the reference considers served (route handler or redirect) are C08's business and skipped here",
 		},
 		WorkerInit: func() { mc.DeterministicPools() },
